@@ -470,19 +470,24 @@ pub fn main_c08(ctx: &Ctx) -> ! {
     // token level: exact_errors x discard_bom (profile prints to stdout; exercised on a slice below)
     let mut tc = tok_corpus(ctx.tier);
     // SIMD windows: scalar path (forced by exact_errors) vs SIMD path
-    for len in [15usize, 16, 17, 31, 32, 33, 47, 48] {
-        for sp in ["\n", "\r", "\r\n", "<", "&", "\0", "\u{e9}"] {
-            for i in 0..=len {
-                let mut s = "x".repeat(len);
-                s.insert_str(i, sp);
-                tc.push((TokCfg::default(), s));
-            }
-        }
-    }
-    tc.par_iter().for_each(|(cfg, input)| {
+    // (two specials at all position pairs; fillers 'x', LF and a two-byte character)
+    let wl: Vec<(usize, char)> = ['x', '\n', '\u{e9}'].iter().flat_map(|&f| (14..=ctx.tier.pick(34, 50)).map(move |l| (l, f))).collect();
+    let windows: Vec<(TokCfg, String)> = wl
+        .par_iter()
+        .flat_map_iter(|&(len, f)| {
+            let mut v = vec![];
+            crate::c01::window_strings(len, f, |s| v.push((TokCfg::default(), s.to_string())));
+            v
+        })
+        .collect();
+    let n_windows = windows.len();
+    let first_window = tc.len();
+    tc.extend(windows);
+    tc.par_iter().enumerate().for_each(|(idx, (cfg, input))| {
         let mut local = BTreeSet::new();
         let n = input.chars().count();
-        let scheds = chunkings(input, if n > 30 { 1.min(max_cuts) } else { max_cuts }, 0);
+        // the window strings are fed in one piece: the SIMD path needs the whole run in one buffer
+        let scheds = chunkings(input, if idx >= first_window { 0 } else if n > 30 { 1.min(max_cuts) } else { max_cuts }, 0);
         for s in &scheds {
             let base = match guarded(|| run_real(cfg, s, &[], true, false)) {
                 Ok(b) => b,
@@ -604,6 +609,7 @@ pub fn main_c08(ctx: &Ctx) -> ! {
             "distinct_nontrivial": st.outcomes.lock().unwrap().len(),
             "inputs": st.inputs.load(Ordering::Relaxed),
             "profile_slice_cases": prof_cases,
+            "simd_window_strings": n_windows,
             "rule": format!("corpus x schedules with <= {max_cuts} cuts x option vectors (tokenizer exact_errors x discard_bom; tree: tokenizer/tree-builder exact_errors x drop_doctype x discard_bom; profile on an exhaustive slice): token stream minus ParseError tokens, non-character token lines, final tree, quirks mode and encoding indicators identical to the default-options run under the same schedule; permitted differences: a leading U+FEFF (discard_bom), the doctype child (drop_doctype)"),
             "exhaustive": true,
             "samples": ["xxxxxxxxxxxxxxx\\r\\nx exact_errors=true vs false", "<!DOCTYPE html>a drop_doctype", "\\ufeffa discard_bom=false"],
